@@ -42,23 +42,23 @@ def orth_tables(ctx):
 
 def configs(ctx):
     items = []
-    lens = [2, 4, 6, 8, 10] if ctx.quick else [2, 4, 6, 8, 10, 12, 14, 16, 20]
+    lens = [2, 4, 6, 8, 10] if ctx.quick else [2, 4, 6, 8, 10, 12, 14, 16, 18, 20, 24, 30, 36]
     for L in lens:
         for J in (1, 2, 3):
-            if L > 4 and J == 3:
+            if L > (4 if ctx.quick else 8) and J == 3:
                 continue
-            if L > 10 and J == 2:
+            if L > (10 if ctx.quick else 20) and J == 2:
                 continue
             base = L + (L % 2)
             ms = sorted({-(-base // 2), -(-base // 2) + 1, base, base + 3})
             for m in ms:
                 N = m * 2 ** J
-                if N // 2 ** (J - 1) < L or N > 200:
+                if N // 2 ** (J - 1) < L or N > (200 if ctx.quick else 400):
                     continue
                 items.append((1, L, N, J))
             m = -(-base // 2)
             N = m * 2 ** J
-            if N // 2 ** (J - 1) >= L and N <= 64:
+            if N // 2 ** (J - 1) >= L and N <= (64 if ctx.quick else 96):
                 items.append((2, L, (N, N + 2 ** J), J))
                 if L in (4, 8):
                     items.append((2, L, (N, N + 2 ** J), J, 'per'))
